@@ -21,10 +21,11 @@ var selTable = map[string][][]string{
 	"Accept":          {{"text/html", "text/html;q=1.0"}, {"application/json, text/plain;q=0.5", "text/plain;q=0.5,application/json"}, {"text/html;level=1"}, {"text/html;level=1, text/html;level=2", "text/html;level=2,text/html;level=1"}, {""}},
 	// fields whose values are case-sensitive (a URI path, product tokens): one spelling per meaning
 	"Referer":    {{"http://h.test/Doc/A", "HTTP://H.TEST/Doc/A"}, {"http://h.test/doc/a"}, {""}},
-	"User-Agent": {{"Fetcher/1.0 (Build-AB)"}, {"Crawler/2.1"}, {""}}, // (compared without regard to case by the library: a test of the suite pins that)
-	"X-A":        {{"1"}, {"2"}, {"1X-B2"}, {"12"}, {""}},
-	"X-B":        {{"2"}, {"1"}, {"X-A1"}, {""}},
-	"X-Tenant":   {{"alpha"}, {"beta"}, {"caf\xe9"}, {""}}, // obs-text (a byte >= 0x80) is a legal field value
+	"User-Agent": {{"Fetcher/1.0 (Build-AB)"}, {"Crawler/2.1"}, {"caf\xe9-bot/1"}, {"caf\xe8-bot/1"}, {""}}, // (compared without regard to case by the library: a test of the suite pins that)
+	// (the two 16-digit values are distinct values whose variant keys collide under a 64-bit FNV hash)
+	"X-A":      {{"1"}, {"9d863088ea8a569f"}, {"9170dae036e4c82e"}, {"2"}, {"1X-B2"}, {"12"}, {""}},
+	"X-B":      {{"2"}, {"1"}, {"X-A1"}, {""}},
+	"X-Tenant": {{"alpha"}, {"beta"}, {"caf\xe9"}, {""}}, // obs-text (a byte >= 0x80) is a legal field value
 	// credentials that differ only after the first token (one spelling per meaning: nothing is claimed equivalent)
 	"Authorization": {{`OAuth oauth_consumer_key="app", oauth_token="alice"`}, {`OAuth oauth_consumer_key="app", oauth_token="bob"`}, {`Digest realm="api", username="alice", nonce="n1"`}, {`Digest realm="api", username="bob", nonce="n1"`}, {"Bearer tok1"}, {"Bearer tok2"}, {""}},
 }
@@ -47,6 +48,7 @@ var spellingMeaning = func() map[string]string {
 type gen struct {
 	*rand.Rand
 	jitter bool
+	selOff map[string]int // per selecting field: where this run's window of meanings starts
 }
 
 func (g *gen) chance(pct int) bool  { return g.IntN(100) < pct }
@@ -198,7 +200,7 @@ func (g *gen) plan(b *bias, resIdx, nRes int, vary string) RespPlan {
 	case 1:
 		p.ExpMode, p.ExpDelta = "rel", life
 		if g.chance(15) {
-			p.ExpMode = pick(g, "zero", "invalid")
+			p.ExpMode = pick(g, "zero", "invalid", "empty")
 		}
 		if g.chance(10) {
 			p.ExpDelta = -life
@@ -317,6 +319,14 @@ func (g *gen) plan(b *bias, resIdx, nRes int, vary string) RespPlan {
 		if g.chance(40) {
 			p.Hop = append(p.Hop, [2]string{"Upgrade", "HOPMARK/$SID"}, [2]string{"Proxy-Connection", "HOPMARK-keep"})
 		}
+		if g.chance(30) {
+			p.Hop = append(p.Hop, [2]string{"TE", "trailers, HOPMARK$SID"})
+		}
+		if g.chance(25) {
+			// the nominations on two field lines (one list, RFC 9110 §5.3)
+			p.Hop[0] = [2]string{"Connection", "keep-alive"}
+			p.Hop = append(p.Hop, [2]string{"Connection", pick(g, "X-Hop-Custom", "x-hop-custom")})
+		}
 	}
 	if len(p.Hop) == 0 && g.chance(max(b.pHop/2, 5)) {
 		// the same field as an ordinary end-to-end field: what one message nominates in Connection is
@@ -350,7 +360,7 @@ func (g *gen) plan(b *bias, resIdx, nRes int, vary string) RespPlan {
 		}
 	}
 	if p.CC != "" && g.chance(12) {
-		p.CCStyle = pick(g, "lines", "case")
+		p.CCStyle = pick(g, "lines", "case", "quoted")
 	}
 	p.Change = g.chance(b.pChange)
 	p.No304 = g.chance(b.pNo304)
@@ -434,8 +444,20 @@ func (g *gen) selHeaders(res *Resource, b *bias) [][2]string {
 			if ms == nil {
 				continue
 			}
-			// few meanings per run so that variants repeat
-			m := ms[g.IntN(min(len(ms), 3))]
+			// few meanings per run so that variants repeat: a window of three consecutive meanings of the
+			// table, at an offset drawn once per run and field
+			if g.selOff == nil {
+				g.selOff = map[string]int{}
+			}
+			off, ok := g.selOff[f]
+			if !ok {
+				off = g.IntN(max(len(ms)-3, 0) + 1)
+				if g.chance(50) {
+					off = 0
+				}
+				g.selOff[f] = off
+			}
+			m := ms[off+g.IntN(min(len(ms)-off, 3))]
 			if f == "Authorization" && g.chance(50) {
 				m = ms[2+g.IntN(4)]
 			}
@@ -551,7 +573,7 @@ func (g *gen) op(b *bias, scn *Scenario) Op {
 		}
 	}
 	if o.CC != "" && g.chance(12) {
-		o.CCStyle = pick(g, "lines", "case")
+		o.CCStyle = pick(g, "lines", "case", "quoted")
 	}
 	o.EmptyMethod = o.Method == "" && g.chance(6)
 	if o.Method == "" && g.chance(b.pOddURL) {
@@ -761,6 +783,20 @@ var profiles = map[string]func(b *bias, g *gen){
 			// a transient read error of the store while the unsafe request is handled must not save the entry
 			b.faultFree, b.readFaultsOnly, b.storeFaults, b.diskFaults = false, true, 2, 0
 		}
+	},
+	"invalswr": func(b *bias, g *gen) {
+		// C07: validations (foreground, and background ones under stale-while-revalidate) whose answer is still on
+		// its way while an unsafe request for the same URI completes: a 304 that arrives afterwards must not bring
+		// the invalidated response back
+		b.pUnsafe, b.pLoc, b.resources = 25, 20, [2]int{1, 2}
+		b.lifetimes = []int64{1, 2, 300}
+		b.freshKinds = []int{9, 1, 0, 0}
+		b.pSWR, b.pValidator, b.pLatency, b.pNo304, b.pChange = 60, 100, 70, 0, 10
+		b.pNoCache, b.pNoStore, b.pMustReval, b.pErrStatus, b.pReqCC = 10, 0, 5, 0, 15
+		b.reqCCs = []string{"no-cache", "max-age=0"}
+		b.clients, b.ops = [2]int{2, 3}, [2]int{3, 8}
+		b.statuses = []int{200}
+		b.thinks = []int64{0, 0, 1, 2, 3}
 	},
 	"writeback": func(b *bias, g *gen) {
 		b.pMultiField = 40
